@@ -180,6 +180,47 @@ def check_pairs(limit=None):
     return out
 
 
+def bundled_foreign_route(order):
+    """writes T[k] = k+1 through the real client with multiple=500; operation k carries route path 1/1 (order[k] == 0) or 1/5 (1);
+    the simulator accepts only 1/1.  Returns the tag afterwards."""
+    from . import netsim, sim
+    from cpppo.server.enip import client, ucmm
+
+    class Sim(ucmm.UCMM):
+        route_path = [{'port': 1, 'link': 1}]
+    with netsim.Server({'T': ('INT', 4)}, UCMM_class=Sim) as srv:
+        ops = list(client.parse_operations(['T[%d]=(INT)%d' % (k, k + 1) for k in range(len(order))]))
+        for o, which in zip(ops, order):
+            o['route_path'] = [{'port': 1, 'link': 1 if which == 0 else 5}]
+        try:
+            with client.connector(host='127.0.0.1', port=srv.port, timeout=2.0) as conn:
+                for _ in conn.pipeline(operations=ops, depth=2, multiple=500, timeout=2.0):
+                    pass
+        except Exception:
+            pass            # a refused bundle ends the session; what counts is what was written
+        return list(sim.tag_values('T'))
+
+
+def client_write_through(config, route):
+    """one write T[0] = 7 through the real client (its EPATH producer) with the given route path to a simulator configured with `config`;
+    returns the tag afterwards"""
+    from . import netsim, sim
+    from cpppo.server.enip import client, ucmm
+
+    class Sim(ucmm.UCMM):
+        route_path = config
+    with netsim.Server({'T': ('INT', 2)}, UCMM_class=Sim) as srv:
+        ops = list(client.parse_operations(['T[0]=(INT)7']))
+        ops[0]['route_path'] = route
+        try:
+            with client.connector(host='127.0.0.1', port=srv.port, timeout=2.0) as conn:
+                for _ in conn.pipeline(operations=ops, depth=1, multiple=0, timeout=2.0):
+                    pass
+        except Exception:
+            pass
+        return list(sim.tag_values('T'))
+
+
 def main_personality(argv):
     """run the real enip main() up to the point where it would start serving; return the route_path of the UCMM class it configured"""
     from cpppo.server import network
@@ -313,6 +354,37 @@ def bounded(tier, seed):
             ok = got == want
         if not ok and len(violations) < 8:
             violations.append(dict(key='main(%r)' % (argv,), observed='UCMM personality %r' % (got,), required='%r' % (want,)))
+    # the real client bundling operations for a simulator configured with route path 1/1: an operation spelled with another route path (1/5)
+    # must not be applied, whatever bundle it travels in
+    for order in ((0, 1, 0), (0, 0, 1, 0), (1, 0), (0, 1, 1, 0)):
+        ev += 1
+        distinct.add(('bundled-route', order))
+        try:
+            vals = bundled_foreign_route(order)
+            want = [(k + 1) if o == 0 else 0 for k, o in enumerate(order)]
+            # an operation under the configured path may or may not have been reached (a refusal ends the session); a foreign one must never be applied
+            ok = all(v == 0 for v, o in zip(vals, order) if o == 1) and vals[0] == want[0]
+            obs = 'tag %r' % (vals,)
+        except Exception as e:
+            ok, obs = False, 'raised %s: %s' % (type(e).__name__, e)
+        if not ok and len(violations) < 8:
+            violations.append(dict(key='bundled writes with route paths %r to a 1/1 simulator' % (['1/1' if o == 0 else '1/5' for o in order],), observed=obs,
+                                   required='no write spelled with route path 1/5 is applied'))
+    # the client's own route-path producer at the port-number boundaries (14 direct, 15 and above in the extended form)
+    for cfg, route, applied in (([{'port': 15, 'link': 1}], [{'port': 15, 'link': 1}], True), ([{'port': 14, 'link': 1}], [{'port': 14, 'link': 1}], True),
+                                ([{'port': 16, 'link': 2}], [{'port': 16, 'link': 2}], True), ([{'port': 257, 'link': 0}], [{'port': 15, 'link': 1}, {'port': 1, 'link': 0}], False),
+                                ([{'port': 15, 'link': 1}], [{'port': 14, 'link': 1}], False), ([{'port': 15, 'link': '10.0.0.1'}], [{'port': 15, 'link': '10.0.0.1'}], True)):
+        ev += 1
+        distinct.add(('client-route', repr(cfg), repr(route)))
+        try:
+            vals = client_write_through(cfg, route)
+            ok = (vals[0] == 7) == applied
+            obs = 'tag %r' % (vals,)
+        except Exception as e:
+            ok, obs = False, 'raised %s: %s' % (type(e).__name__, e)
+        if not ok and len(violations) < 8:
+            violations.append(dict(key='client write with route path %r to a simulator configured %r' % (route, cfg), observed=obs,
+                                   required='applied' if applied else 'refused, the tag untouched'))
     bad = check_pairs()
     ev += 48
     for b in bad[:5]:
@@ -321,5 +393,5 @@ def bounded(tier, seed):
     return dict(evaluations=ev, distinct_nontrivial=len(distinct), distinct_keys=distinct_keys(distinct),
                 rule='route-path texts (p/l for ports {1,2,15,255} x numeric/IP links, chained 2..3 hops, JSON lists of dicts and of p/l strings) vs a reference '
                      'parser; every (personality in none/simple/3 configured paths) x (request route path absent / equal / differing in port, link, link kind, length) '
-                     'through the real logix.process with a Write Tag: accepted => applied, refused => non-zero status and the tag untouched; distinct = distinct texts / pairs',
+                     'through the real logix.process with a Write Tag: accepted => applied, refused => non-zero status and the tag untouched; bundled client writes with mixed route paths to a 1/1 simulator: none spelled 1/5 is applied; distinct = distinct texts / pairs',
                 exhaustive=False, samples=samples, violations=violations[:20], seed=seed)
